@@ -1,13 +1,13 @@
 """C12 worker: runs ONE history of ops in a fresh Python process and prints what it observed (JSON on stdout).
 
-usage: python c12_worker.py < request.json ; request = {"mode": "history" | "calibrate", "ops": [...], "snapshot": bool}
+usage: python c12_worker.py < request.json ; request = {"mode": "history" | "calibrate" | "memo" | "lazy", "ops": [...], "snapshot": bool}
 """
 import json
 import os
 import sys
 
 sys.path.insert(0, os.path.dirname(os.path.dirname(os.path.abspath(__file__))))
-from harness import c12_ops, c12_snapshot  # noqa: E402
+from harness import c12_ops, c12_snapshot, c12_memo  # noqa: E402
 from lib.framework import time_limit, TimeLimit  # noqa: E402
 
 
@@ -77,6 +77,14 @@ def main():
     try:
         if req['mode'] == 'calibrate':
             json.dump(calibrate(req), sys.stdout)
+        elif req['mode'] == 'capture':
+            json.dump(c12_memo.run_capture(req), sys.stdout)
+        elif req['mode'] == 'memo':
+            with time_limit(300):
+                json.dump(c12_memo.run_memo(req), sys.stdout)
+        elif req['mode'] == 'lazy':
+            with time_limit(300):
+                json.dump(c12_memo.run_lazy(req), sys.stdout)
         else:
             json.dump(run_history(req), sys.stdout)
     except TimeLimit:
